@@ -93,6 +93,7 @@ def hashDataExpected : List (List String) :=
     ["cond", "getHashData", "err!=nil"], ["cond", "getHashData", "len(box.SubTxList)>0"], ["cond", "getHashData", "tx.Type()==params.BoxTx"],
     ["local", "DefaultSigner", "hashData", "getHashData(tx)"], ["local", "GasPayerSigner", "firstSignData", "tx.data.Sigs"],
     ["local", "ReimbursementTxSigner", "hashData", "getHashData(tx)"], ["local", "Transaction", "hashData", "getHashData(tx)"],
+    ["range", "calcBoxSubTxHashSet", "subTxList"],
     ["return", "calcBoxSubTxHashSet", "subTxHashSet"], ["return", "getHashData", "calcBoxSubTxHashSet(box.SubTxList)"],
     ["return", "getHashData", "tx.data.Data"] ]
 
@@ -101,9 +102,14 @@ def step (d : D) (w : List String) : D × String :=
   | ["hashcover", fn, field, bit] =>
     if LemoModel.HashFacts.covers fn field == (bit == "1") && LemoModel.HashFacts.fields.contains field
     then (d, "ok") else (d, "table-mismatch")
-  | ["hashdata", "count", n] => (d, if n == "15" then "ok" else "table-mismatch")
+  | ["hashdata", "count", n] => (d, if n == "16" then "ok" else "table-mismatch")
   | "hashdata" :: rest => (d, if hashDataExpected.contains rest then "ok" else "table-mismatch")
   | ["hashfns", n] => (d, if n == toString LemoModel.HashFacts.expected.length then "ok" else "table-mismatch")
+  | ["rate", "vote", v, "deposit", dr, "precision", pr] =>
+    -- the rates the property states literally = the defaults of `Ledger.Params`; anything else is a changed protocol constant
+    let p0 : Params := {}
+    (d, if parseInt? v == some p0.voteRate && parseInt? dr == some p0.depositRate && parseInt? pr == some p0.rewardPrecision
+        then "ok" else "table-mismatch")
   | ["reset"] => ({ d with accts := fun _ => {}, univ := [], txs := [], rf := none }, "ok")
   | ["params", vr, dr, md, td, idur, pool, prec] =>
     match parseInt? vr, parseInt? dr, parseInt? md, td.toNat?, idur.toNat?, pool.toNat?, parseInt? prec with
